@@ -259,6 +259,8 @@ class Fn:
             rpred = defaultdict(list)
             for b in reach:
                 if not succ[b]:
+                    if self.blocks[b]['t']['k'] == 'unreachable':
+                        continue  # never executed: not an exit
                     rsucc[EXIT].append(b)
                     rpred[b].append(EXIT)
                 for s in succ[b]:
